@@ -44,7 +44,7 @@ from zcsim.world import pkg_file_key
 ID = "C06"
 LEVEL = "exploration"
 HAS_CLOCK = False
-BUDGET = {"quick": (20000, 240), "thorough": (300000, 1200)}
+BUDGET = {"quick": (30000, 240), "thorough": (600000, 1500)}
 RULE = (
     "A case is (schema, text, cut layout, variant): text valid or with one "
     "typed text fault; 1..3 balanced line ranges (nested cuts allowed, "
@@ -274,7 +274,8 @@ def generate(rng, tier, index):
                           "import-in-fragment", "deep-chain",
                           "odd-first-char"])
     plan = {"prop": ID, "schema_xml": xml, "top": uni["top"],
-            "variant": variant, "fault": None}
+            "variant": variant, "fault": None,
+            "entry": rng.choice(["url", "url", "path", "file"])}
     res = TF.res_texts(uni)
     if variant == "invalid":
         injs = TF.enumerate_injections(ir, uni)
@@ -549,8 +550,24 @@ def _execute(plan, out, store, decoys_in, top, real, report_plan=None):
         w.store = cut_store
         faults = [plan["fault"]] if plan.get("fault") else []
         w.begin_op("load-cut", faults)
-        oc = ops.config_outcome(lambda: ZConfig.loadConfig(schema, top))
+        entry = plan.get("entry", "url")
+        if entry == "path" and not (top.startswith("file:///")
+                                    and "%" not in top):
+            entry = "url"
+        if entry == "path":
+            # the top resource named by its absolute path
+            oc = ops.config_outcome(lambda: ZConfig.loadConfig(
+                schema, top[len("file://"):]))
+        elif entry == "file":
+            # ... or handed over as an open text stream with its URL
+            oc = ops.config_outcome(lambda: ZConfig.loadConfigFile(
+                schema, io.StringIO(cut_store.get(top, "")), top))
+        else:
+            oc = ops.config_outcome(lambda: ZConfig.loadConfig(schema, top))
         opened = list(w.opened)
+        if entry == "file":
+            # the caller opened the top resource itself
+            opened = [top] + opened
         fired = w.op_fired
         w.end_op("ok" if oc["ok"] else oc["cls"])
         out["evaluations"] += 2
